@@ -31,6 +31,7 @@ Theorem C01_predicates_from_source : forall (t : tx) (i : txin) (iw : inwit) (ow
   /\ SrcPreds.src_TxInWitness_is_empty iw = inwit_is_empty iw /\ SrcPreds.src_TxOutWitness_is_empty ow = outwit_is_empty ow
   /\ SrcPreds.src_Value_encoded_length v = elen (c_value (fun _ => true)) v /\ SrcPreds.src_Asset_encoded_length a = elen (c_asset (fun _ => true)) a
   /\ SrcPreds.src_Nonce_encoded_length n = elen (c_nonce (fun _ => true)) n
+  /\ (forall k, SrcPreds.src_VarInt_size k = elen c_varint k)
   /\ [SrcPreds.src_Value_is_null v; SrcPreds.src_Value_is_explicit v; SrcPreds.src_Value_is_confidential v]
       = match v with VNull => [true; false; false] | VExplicit _ => [false; true; false] | VConf _ => [false; false; true] end
   /\ [SrcPreds.src_Asset_is_null a; SrcPreds.src_Asset_is_explicit a; SrcPreds.src_Asset_is_confidential a]
@@ -38,7 +39,7 @@ Theorem C01_predicates_from_source : forall (t : tx) (i : txin) (iw : inwit) (ow
   /\ [SrcPreds.src_Nonce_is_null n; SrcPreds.src_Nonce_is_explicit n; SrcPreds.src_Nonce_is_confidential n]
       = match n with NNull => [true; false; false] | NExplicit _ => [false; true; false] | NConf _ => [false; false; true] end.
 Proof. intros. repeat split; auto using SrcPreds.src_has_witness, SrcPreds.src_has_issuance, SrcPreds.src_issuance_is_null, SrcPreds.src_inwit_is_empty,
-  SrcPreds.src_outwit_is_empty, SrcPreds.src_value_len, SrcPreds.src_asset_len, SrcPreds.src_nonce_len, SrcPreds.src_value_kinds, SrcPreds.src_asset_kinds, SrcPreds.src_nonce_kinds. Qed.
+  SrcPreds.src_outwit_is_empty, SrcPreds.src_varint_size, SrcPreds.src_value_len, SrcPreds.src_asset_len, SrcPreds.src_nonce_len, SrcPreds.src_value_kinds, SrcPreds.src_asset_kinds, SrcPreds.src_nonce_kinds. Qed.
 
 Section C01.
 Variable pt_ok : bytes -> bool.
